@@ -22,6 +22,7 @@ func checkC20(c *Ctx) {
 	r.Trusted = []string{"protoc-gen-go's field type mapping"}
 	r.Rule("R20a", "mock assignments type-check for every response-field shape (with the service file and runtime; Mock<S>Server implements <S>Server)", 4)
 	r.Rule("R20c", "mock field walker recursion is well-founded", 2)
+	r.Rule("R20h", "the mock walker's visited set is path-scoped (marked on entry, unmarked on return)", 1)
 	r.Rule("R20d", "example values and table keys are printed quoted", 1)
 	r.Rule("R20e", "example table keys and selector lookup keys have the same format", 1)
 	r.Rule("R20f", "file-independent package-level names in per-file units", 1)
@@ -140,9 +141,49 @@ func checkC20(c *Ctx) {
 					continue
 				}
 				guarded := c.entryGuarded(cs.Callee, inSCC) || c.entryGuarded(f, inSCC)
+				// the same set must travel along the cycle
+				info := c.P.DeclPkg[f].TypesInfo
+				for _, a := range cs.Call.Args {
+					if tv, ok := info.Types[a]; ok && tv.Type != nil {
+						if _, isMap := tv.Type.Underlying().(*types.Map); isMap {
+							if _, isLit := ast.Unparen(a).(*ast.CompositeLit); isLit {
+								guarded = false
+							}
+						}
+					}
+				}
 				r.Check(guarded, "R20c", fmt.Sprintf("%s -> %s is visited-guarded", f.Name(), cs.Callee.Name()), c.P.Pos(cs.Call.Pos()),
 					"the mock generator follows message references without a visited set: a recursive response type makes protoc-gen-go-http recurse forever with generate_mock=true")
 			}
+		}
+	}
+
+	// ---- R20h the visited set is path-scoped: a message type met twice on different paths is filled both times
+	for _, comp := range c.sccs() {
+		for _, f := range comp {
+			if !strings.Contains(f.Name(), "Mock") {
+				continue
+			}
+			tested, ins, desc := c.visitedGuard(f)
+			if !tested || len(ins) == 0 {
+				continue
+			}
+			decl := c.P.Decls[f]
+			unmark := false
+			ast.Inspect(decl.Body, func(n ast.Node) bool {
+				ds, ok := n.(*ast.DeferStmt)
+				if !ok {
+					return true
+				}
+				if id, ok := ds.Call.Fun.(*ast.Ident); ok && id.Name == "delete" && len(ds.Call.Args) == 2 {
+					if types.ExprString(ds.Call.Args[0])+"["+types.ExprString(ds.Call.Args[1])+"]" == desc {
+						unmark = true
+					}
+				}
+				return true
+			})
+			r.Check(unmark, "R20h", f.Name()+": the visited mark "+desc+" is removed when the expansion returns", c.P.Pos(decl.Pos()),
+				fmt.Sprintf("%s marks %s but never unmarks it (no `defer delete(…)`): the set then records every type seen anywhere in the response, not the types on the current path, so the second field of a message type already expanded elsewhere (Address home; Address work) is emitted as an empty &T{} and its examples are ignored", f.Name(), desc))
 		}
 	}
 
